@@ -318,15 +318,20 @@ struct Init {
         }
         {   // C19 memory safety; malformed files fail cleanly
             struct SeedFile { std::vector<uint8_t> bytes; long long hdr; long long first_case, ncases; };
-            static std::vector<SeedFile> pool; static long long total_cases = 0;
+            static std::vector<SeedFile> pool; static long long total_cases = 0; static std::vector<std::vector<uint8_t>> specials;
             static const unsigned long long dict4[] = {0, 1, 2, 0xffffffffULL, 0x7fffffffULL, 0x80000000ULL, 0xfffffffeULL, 10, 11, 12, 6, 7, 0x00010000ULL, 0x7ffffffcULL};
-            static const int ND = 14;
+            static const int ND = 16;   // 14 dictionary values + the original word +4 / -4 (a begin offset moved into its neighbour)
             auto build_pool = []() {
                 if (!pool.empty()) return;
                 extern std::vector<uint8_t> random_valid_file(uint64_t, bool, bool, int);
                 std::vector<std::vector<uint8_t>> files;
                 for (int ver : {1, 2, 5}) for (uint64_t k = 1; k <= 3; k++) { uint64_t sd = 1000 * ver + k; std::vector<uint8_t> b; for (int tries = 0; tries < 50; tries++) { b = random_valid_file(sd + 17 * tries, tries % 2, false, ver); if (b.size() > 120) break; } files.push_back(b); }
                 { extern std::vector<uint8_t> highrank_valid_file(int, int); files.push_back(highrank_valid_file(1, 18)); files.push_back(highrank_valid_file(5, 33)); }
+                {   // files that carry the HDF5 signature (at offset 0, and at 512 behind a block that is not 'CDF'): must be refused on every rank alike
+                    static const uint8_t sig[8] = {0x89, 'H', 'D', 'F', '\r', '\n', 0x1a, '\n'};
+                    std::vector<uint8_t> h0(sig, sig + 8); h0.resize(96, 0); specials.push_back(h0);
+                    std::vector<uint8_t> h1(512, 0x01); h1.insert(h1.end(), sig, sig + 8); h1.resize(640, 0); specials.push_back(h1);
+                }
                 // library-written seed files: final images of three generated programs
                 for (uint64_t k = 1; k <= 3; k++) { GenParams g; g.forced_np = true; g.np = 1; g.max_data_ops = 4; g.reopen = false; Program q = gen_program(7700 + k, g, "C19-seedfile"); RunOpts o; RunResult r = run_program(q, o); auto it = r.final_files.find("/sim/f0.nc"); if (it != r.final_files.end() && it->second.size > 0 && it->second.size < 100000) files.push_back(it->second.bytes(0, it->second.size)); }
                 for (auto &b : files) {
@@ -340,7 +345,7 @@ struct Init {
             Profile p; p.id = "C19"; p.level = "fault_enumeration"; p.space_seeds = total_cases;
             p.fault_kinds = {"stored-file truncation", "stored-file word substitution", "stored-file random multi-field corruption"};
             p.technique = "deterministic simulation with fault injection on stored bytes: every truncation point and every header word x extreme-value dictionary of seed files, opened by the real library built with AddressSanitizer + UndefinedBehaviorSanitizer";
-            p.rule = "seed files: 9 encoder-written (3 per format CDF-1/2/5, half in non-library dialects), 2 encoder-written files with variables of 18..36 dimensions, and 3 library-written images; stored-byte faults applied before the file is opened: every truncation point 0..header+8, every aligned 4-byte header word replaced by each of 14 dictionary values (0,1,2,-1,2^31-1,2^31,2^32-2,tags 10/11/12,type codes 6/7,2^16,2^31-4) and every aligned 8-byte word by 4 extremes - " + std::to_string(total_cases) + " cases, one per seed 1.." + std::to_string(total_cases) + ", enumerated completely; later seeds apply 2..6 random byte/word corruptions; the damaged file is opened by 1..3 simulated ranks, every inquiry is made and the first elements of every variable are read; oracle: no sanitizer report, no crash, no assert, no hang, open returns a netCDF error code or self-consistent metadata, no single allocation above 64 MiB + 16 x file size; non-trivial = the library got as far as reading the damaged header (>= 1 MPI-IO read); the check runs the sanitizer build in both tiers";
+            p.rule = "seed files: 9 encoder-written (3 per format CDF-1/2/5, half in non-library dialects), 2 encoder-written files with variables of 18..36 dimensions, and 3 library-written images; stored-byte faults applied before the file is opened: every truncation point 0..header+8, every aligned 4-byte header word replaced by each of 14 dictionary values (0,1,2,-1,2^31-1,2^31,2^32-2,tags 10/11/12,type codes 6/7,2^16,2^31-4) and by its own value +4 / -4 (an offset moved into the neighbouring variable) and every aligned 8-byte word by 4 extremes - " + std::to_string(total_cases) + " cases, one per seed 1.." + std::to_string(total_cases) + ", enumerated completely; later seeds apply 2..6 random byte/word corruptions or open a file carrying the HDF5 signature (at offset 0 / 512); the damaged file is opened by 1..3 simulated ranks, every inquiry is made and the first elements of every variable are read; oracle: no sanitizer report, no crash, no assert, no hang, open returns a netCDF error code or self-consistent metadata, no single allocation above 64 MiB + 16 x file size; non-trivial = the library got as far as reading the damaged header (>= 1 MPI-IO read); the check runs the sanitizer build in both tiers";
             p.gen = [](uint64_t seed, bool th) {
                 Program q; q.seed = seed; q.cfg.profile = "C19"; sim::Rng rng(seed * 16807 + 3);
                 q.cfg.sim.nprocs = 1 + (int)(seed % 3); q.cfg.sim.node_of.assign(q.cfg.sim.nprocs, 0); q.cfg.sim.deviate = (seed % 2) ? 0.2 : 0;
@@ -355,11 +360,12 @@ struct Init {
                 const SeedFile &sf = pool[fi]; std::vector<uint8_t> b = sf.bytes; long long k = c - sf.first_case; std::string damage;
                 if (lap0) {
                     if (k < sf.hdr + 9) { b.resize((size_t)std::min<long long>(k, (long long)b.size())); damage = "truncated#" + std::to_string(k); }
-                    else if ((k -= sf.hdr + 9) < (sf.hdr / 4) * ND) { long long w = k / ND; unsigned long long v = dict4[k % ND]; damage = "word32#" + std::to_string(w * 4) + "=" + std::to_string(v); for (int i = 0; i < 4; i++) b[(size_t)(w * 4 + i)] = (uint8_t)(v >> (8 * (3 - i))); }
+                    else if ((k -= sf.hdr + 9) < (sf.hdr / 4) * ND) { long long w = k / ND; unsigned long long v; if (k % ND < 14) v = dict4[k % ND]; else { unsigned long long o4 = 0; for (int i = 0; i < 4; i++) o4 = (o4 << 8) | b[(size_t)(w * 4 + i)]; v = (k % ND == 14) ? (o4 + 4) & 0xffffffffULL : (o4 - 4) & 0xffffffffULL; } damage = "word32#" + std::to_string(w * 4) + "=" + std::to_string(v); for (int i = 0; i < 4; i++) b[(size_t)(w * 4 + i)] = (uint8_t)(v >> (8 * (3 - i))); }
                     else { k -= (sf.hdr / 4) * ND; long long w = k / 4; static const unsigned long long d8[] = {~0ULL, 0x7fffffffffffffffULL, 0x8000000000000000ULL, 0x0000000100000000ULL}; unsigned long long v = d8[k % 4]; damage = "word64#" + std::to_string(w * 4) + "=" + std::to_string(v); for (int i = 0; i < 8 && (size_t)(w * 4 + i) < b.size(); i++) b[(size_t)(w * 4 + i)] = (uint8_t)(v >> (8 * (7 - i))); }
                 } else {
+                    if (!specials.empty() && seed % 16 == 1) { b = specials[(seed / 16) % specials.size()]; q.preload.push_back({"/sim/bad.nc", b}); Op o; o.kind = OP_OPENPROBE; o.file = 0; o.name = "/sim/bad.nc"; o.name2 = "seedfile-hdf5-signature#" + std::to_string((seed / 16) % specials.size()); q.ops.push_back(o); return q; }
                     fi = rng.below(pool.size()); b = pool[fi].bytes; int n = 2 + (int)rng.below(5); damage = "multi";
-                    for (int i = 0; i < n && !b.empty(); i++) { size_t off = rng.below(std::min<size_t>(b.size(), (size_t)pool[fi].hdr + 16)); if (rng.chance(0.5)) b[off] ^= (uint8_t)(1u << rng.below(8)); else { unsigned long long v = dict4[rng.below(ND)]; off &= ~(size_t)3; for (int j = 0; j < 4 && off + j < b.size(); j++) b[off + j] = (uint8_t)(v >> (8 * (3 - j))); } }
+                    for (int i = 0; i < n && !b.empty(); i++) { size_t off = rng.below(std::min<size_t>(b.size(), (size_t)pool[fi].hdr + 16)); if (rng.chance(0.5)) b[off] ^= (uint8_t)(1u << rng.below(8)); else { unsigned long long v = dict4[rng.below(14)]; off &= ~(size_t)3; for (int j = 0; j < 4 && off + j < b.size(); j++) b[off + j] = (uint8_t)(v >> (8 * (3 - j))); } }
                     if (rng.chance(0.2)) b.resize(rng.below(b.size() + 1));
                 }
                 q.preload.push_back({"/sim/bad.nc", b});
